@@ -4,7 +4,7 @@ import time
 
 import vlib
 
-NKINDS = 24
+NKINDS = 37
 
 CFG = """INIT Init
 NEXT Next
